@@ -393,6 +393,14 @@ Section WithHash.
       itself the complete canonical encoding (version, address, matching checksum) of the result *)
   Theorem corrupted_rejected a s : s <> to_base58 H a -> from_base58 H s <> inr a.
   Proof. intros Hne E. apply from_only_canonical in E. tauto. Qed.
+
+  (** at most one string decodes to a given address: two accepted strings with the same result are
+      the same string, whatever the hash function is *)
+  Theorem from_base58_unique s1 s2 a : from_base58 H s1 = inr a -> from_base58 H s2 = inr a -> s1 = s2.
+  Proof.
+    intros E1 E2. apply from_only_canonical in E1. apply from_only_canonical in E2.
+    destruct E1 as [-> _]. destruct E2 as [-> _]. reflexivity.
+  Qed.
 End WithHash.
 
 (** * What the final comparison is needed for: without it, leading alphabet[0] characters and
@@ -669,4 +677,12 @@ Qed.
 Theorem parse_from_bytes_iff f a : address_parse_from_bytes f = inr a <-> (a = f /\ length f = B58_ADDR_LEN).
 Proof.
   split; [apply parse_inv|]. intros [-> L]. apply parse_ok. exact L.
+Qed.
+
+(** two hex strings accepted with the same result differ at most in the case of A-F *)
+Theorem hex_unique_up_to_case s1 s2 a :
+  from_hex_string s1 = inr a -> from_hex_string s2 = inr a -> map hex_lower s1 = map hex_lower s2.
+Proof.
+  intros E1 E2. apply hex_only_canonical in E1. apply hex_only_canonical in E2.
+  destruct E1 as [E1 _]. destruct E2 as [E2 _]. congruence.
 Qed.
